@@ -18,7 +18,7 @@
 
    Parts: 1 descriptors   2 descriptor_of   3 IDL facts and the two projections
           4 wire codec, marshal / unmarshal   5 registry and lookups   6 Go type table *)
-From Coq Require Import List Bool NArith ZArith.
+From Coq Require Import List Bool NArith ZArith Permutation.
 From Coq.Strings Require Import Byte String.
 From Verif Require Import Base.Bytes Base.BE Wire.TType Wire.WVal Wire.Codec Wire.Schema Wire.SchemaDescriptor
   Idl.Ast Idl.AstUtil.
@@ -420,6 +420,11 @@ Definition includes_plain (f : file) : bool :=
                     | Some p => beqb (base_name (in_path i)) (base_name p)
                     | None => false end) (f_includes f).
 
+(* included files and their prefixes have names (the parser never delivers an empty one) *)
+Definition includes_named (f : file) : bool :=
+  forallb (fun i => negb (match include_path i with [] => true | _ => false end) &&
+                    negb (match include_alias (include_path i) with [] => true | _ => false end)) (f_includes f).
+
 (* ================================================================ 4. wire codec *)
 
 (* meta.Marshal / meta.Unmarshal on the descriptor structs, as the Thrift binary encoding at the
@@ -731,9 +736,76 @@ Definition dec_fdesc (w : wval) : option fdesc :=
       | _, _, _, _, _, _, _, _, _, _, _ => None end
   | _ => None end.
 
-(* descriptors equal up to the order of map entries (annotations, includes, namespaces, extra,
-   value_map), at every level *)
-Definition fdesc_equiv (a b : fdesc) : bool := weq_mod false (enc_fdesc a) (enc_fdesc b).
+(* the same test as a boolean on the encodings (used by the correspondence check): equal up to the
+   order of map entries at every level *)
+Definition fdesc_equivb (a b : fdesc) : bool := weq_mod false (enc_fdesc a) (enc_fdesc b).
+
+(* ---- descriptors equal up to the order of map entries ---- *)
+
+(* Go maps have no order: two descriptors are equivalent when they differ only in the order in which
+   the entries of their maps (annotations, includes, namespaces, Extra, value_map) are listed, at
+   every level.  value_map is keyed by pointers: its entries are compared as pairs. *)
+Inductive optR {A} (R : A -> A -> Prop) : option A -> option A -> Prop :=
+| optR_None : optR R None None
+| optR_Some x y : R x y -> optR R (Some x) (Some y).
+Inductive pairR {A} (R : A -> A -> Prop) : A * A -> A * A -> Prop :=
+| pairR_intro a b a' b' : R a a' -> R b b' -> pairR R (a, b) (a', b').
+(* a permutation followed by an element-wise relation *)
+Inductive PermR {A} (R : A -> A -> Prop) : list A -> list A -> Prop :=
+| PermR_intro l l0 l' : Permutation l l0 -> Forall2 R l0 l' -> PermR R l l'.
+
+Definition extra_eq (e e' : extra_t) : Prop := optR (@Permutation (bytes * bytes)) e e'.
+
+Fixpoint tdesc_eq (a b : tdesc) : Prop :=
+  match a, b with
+  | TDesc p n k v ex, TDesc p' n' k' v' ex' =>
+      p = p' /\ n = n' /\
+      match k, k' with Some x, Some y => tdesc_eq x y | None, None => True | _, _ => False end /\
+      match v, v' with Some x, Some y => tdesc_eq x y | None, None => True | _, _ => False end /\
+      extra_eq ex ex'
+  end.
+
+Inductive cvd_eq : cvdesc -> cvdesc -> Prop :=
+| cvd_eq_intro ty dbl int str b l l' m m' id ex ex' :
+    optR (Forall2 cvd_eq) l l' -> optR (PermR (pairR cvd_eq)) m m' -> extra_eq ex ex' ->
+    cvd_eq (CVD ty dbl int str b l m id ex) (CVD ty dbl int str b l' m' id ex').
+
+Definition fielddesc_eq (a b : fielddesc) : Prop :=
+  fld_filepath a = fld_filepath b /\ fld_name a = fld_name b /\ tdesc_eq (fld_type a) (fld_type b) /\
+  fld_req a = fld_req b /\ fld_id a = fld_id b /\ optR cvd_eq (fld_default a) (fld_default b) /\
+  Permutation (fld_annos a) (fld_annos b) /\ fld_comments a = fld_comments b /\ extra_eq (fld_extra a) (fld_extra b).
+Definition structdesc_eq (a b : structdesc) : Prop :=
+  sd_filepath a = sd_filepath b /\ sd_name a = sd_name b /\ Forall2 fielddesc_eq (sd_fields a) (sd_fields b) /\
+  Permutation (sd_annos a) (sd_annos b) /\ sd_comments a = sd_comments b /\ extra_eq (sd_extra a) (sd_extra b).
+Definition enumvaluedesc_eq (a b : enumvaluedesc) : Prop :=
+  evd_filepath a = evd_filepath b /\ evd_name a = evd_name b /\ evd_value a = evd_value b /\
+  Permutation (evd_annos a) (evd_annos b) /\ evd_comments a = evd_comments b /\ extra_eq (evd_extra a) (evd_extra b).
+Definition enumdesc_eq (a b : enumdesc) : Prop :=
+  ed_filepath a = ed_filepath b /\ ed_name a = ed_name b /\ Forall2 enumvaluedesc_eq (ed_values a) (ed_values b) /\
+  Permutation (ed_annos a) (ed_annos b) /\ ed_comments a = ed_comments b /\ extra_eq (ed_extra a) (ed_extra b).
+Definition typedefdesc_eq (a b : typedefdesc) : Prop :=
+  tdd_filepath a = tdd_filepath b /\ tdesc_eq (tdd_type a) (tdd_type b) /\ tdd_alias a = tdd_alias b /\
+  Permutation (tdd_annos a) (tdd_annos b) /\ tdd_comments a = tdd_comments b /\ extra_eq (tdd_extra a) (tdd_extra b).
+Definition methoddesc_eq (a b : methoddesc) : Prop :=
+  md_filepath a = md_filepath b /\ md_name a = md_name b /\ optR tdesc_eq (md_response a) (md_response b) /\
+  Forall2 fielddesc_eq (md_args a) (md_args b) /\ Permutation (md_annos a) (md_annos b) /\
+  md_comments a = md_comments b /\ Forall2 fielddesc_eq (md_throws a) (md_throws b) /\ md_oneway a = md_oneway b /\
+  extra_eq (md_extra a) (md_extra b).
+Definition servicedesc_eq (a b : servicedesc) : Prop :=
+  svd_filepath a = svd_filepath b /\ svd_name a = svd_name b /\ Forall2 methoddesc_eq (svd_methods a) (svd_methods b) /\
+  Permutation (svd_annos a) (svd_annos b) /\ svd_comments a = svd_comments b /\ extra_eq (svd_extra a) (svd_extra b) /\
+  svd_base a = svd_base b.
+Definition constdesc_eq (a b : constdesc) : Prop :=
+  cd_filepath a = cd_filepath b /\ cd_name a = cd_name b /\ tdesc_eq (cd_type a) (cd_type b) /\
+  cvd_eq (cd_value a) (cd_value b) /\ Permutation (cd_annos a) (cd_annos b) /\ cd_comments a = cd_comments b /\
+  extra_eq (cd_extra a) (cd_extra b).
+Definition fdesc_equiv (a b : fdesc) : Prop :=
+  fdc_filepath a = fdc_filepath b /\ Permutation (fdc_includes a) (fdc_includes b) /\
+  Permutation (fdc_namespaces a) (fdc_namespaces b) /\
+  Forall2 servicedesc_eq (fdc_services a) (fdc_services b) /\ Forall2 structdesc_eq (fdc_structs a) (fdc_structs b) /\
+  Forall2 structdesc_eq (fdc_exceptions a) (fdc_exceptions b) /\ Forall2 enumdesc_eq (fdc_enums a) (fdc_enums b) /\
+  Forall2 typedefdesc_eq (fdc_typedefs a) (fdc_typedefs b) /\ Forall2 structdesc_eq (fdc_unions a) (fdc_unions b) /\
+  Forall2 constdesc_eq (fdc_consts a) (fdc_consts b) /\ extra_eq (fdc_extra a) (fdc_extra b).
 
 (* meta.Marshal / meta.Unmarshal: one struct through the binary protocol *)
 Definition meta_marshal (d : fdesc) : bytes := enc (enc_fdesc d).
